@@ -558,6 +558,68 @@ def bool_payload_edges(body, call):
     return None
 
 
+def bool_switches(body):
+    """local -> [(bb, true_edges, false_edges)] for every SwitchInt on a (possibly negated) bool
+    local that has a single definition (so all tests of it agree on one path)."""
+    out = defaultdict(list)
+    for b in sorted(body.live_blocks()):
+        t = body.term(b)
+        if t[0] != "switch" or body._disc_source(b, t) is not None:
+            continue
+        l = op_local(t[1])
+        if l is None or place_proj(t[1][1]):
+            continue
+        src, flipped = switch_parity(body, l)
+        if body.locals[src] != "bool" or len(body.defs.get(src, [])) != 1:
+            continue
+        te = [(b, t[3])]
+        fe = [(b, tgt) for v, tgt in t[2] if v == 0]
+        if flipped:
+            te, fe = fe, te
+        out[src].append((b, te, fe))
+    return out
+
+
+def all_edges_of_flag(body, call):
+    """(true_edges, false_edges) over *every* test of the boolean produced by `call` (a flag
+    stored in a variable and tested several times)."""
+    be = bool_payload_edges(body, call)
+    if be is None:
+        return None
+    sw = bool_switches(body)
+    first_bb = be[0][0][0] if be[0] else (be[1][0][0] if be[1] else None)
+    for src, lst in sw.items():
+        if any(b == first_bb for b, _, _ in lst):
+            te, fe = [], []
+            for b, t_, f_ in lst:
+                te += t_
+                fe += f_
+            return te, fe
+    return be
+
+
+def must_pass_block_corr(body, via_bb, target_bb):
+    """must_pass_block, but paths that take contradictory branches on the same single-def bool
+    flag are infeasible and ignored: target must be unreachable without `via` under both values
+    of at least one flag (or unconditionally)."""
+    if body.must_pass_block(via_bb, target_bb):
+        return True
+    for src, lst in bool_switches(body).items():
+        if len(lst) < 2:
+            continue
+        ok = True
+        for val in (True, False):
+            removed = set()
+            for b, te, fe in lst:
+                removed |= set(fe if val else te)
+            if target_bb in body.reachable(0, removed_edges=removed, removed_blocks=[via_bb]):
+                ok = False
+                break
+        if ok:
+            return True
+    return False
+
+
 def bool_fn_table(body, atom_of_call, max_paths=256):
     """Symbolically evaluate a small pure boolean function by enumerating its CFG paths.
 
